@@ -91,6 +91,7 @@ type runner struct {
 	stopAll   func(force bool)
 	pls       *pipeline.Service
 	waits     map[string]chan struct{}
+	holdRunCh chan struct{}
 	stopAsked bool // a stop request returned ok since the last Start call (the end state should be a stopped one)
 	wg        sync.WaitGroup
 }
@@ -228,6 +229,71 @@ func (r *runner) exec(op string) {
 		withTimeout(opTimeout, func() string { r.stopAll(arg == "f"); return "" })
 		r.stopAsked = true
 		w.ev("r:stopall:" + arg)
+	case "astopall": // astopall:<g|f>:<k> — StopAll in its own goroutine (v2 StopAll waits for the in-flight batch); join:<k>
+		fg, k, _ := strings.Cut(arg, ":")
+		done := make(chan struct{})
+		r.waits[k] = done
+		w.ev("c:stopall:" + fg)
+		r.stopAsked = true
+		r.wg.Add(1)
+		go func() {
+			defer r.wg.Done()
+			defer close(done)
+			if withTimeout(2*opTimeout, func() string { r.stopAll(fg == "f"); return "" }) == "hang" {
+				w.ev("r:stopall:" + fg + ":hang")
+				return
+			}
+			w.ev("r:stopall:" + fg)
+		}()
+		time.Sleep(3 * time.Millisecond)
+	case "astart": // astart:<k> — Start in its own goroutine (its StatusRunning write may be held); join:<k>
+		done := make(chan struct{})
+		r.waits[arg] = done
+		w.ev("c:start")
+		r.wg.Add(1)
+		go func() {
+			defer r.wg.Done()
+			defer close(done)
+			res := withTimeout(3*opTimeout, func() string { return startClass(r.eng.Start(ctx, plID)) })
+			w.ev("r:start:" + res)
+		}()
+	case "holdrun": // the next UpdateStatus(Running) is held inside the status store (slow write)
+		w.mu.Lock()
+		w.holdRun = make(chan struct{})
+		r.holdRunCh = w.holdRun
+		w.mu.Unlock()
+	case "reachrun": // wait until that write is parked
+		deadline := time.Now().Add(1500 * time.Millisecond)
+		for time.Now().Before(deadline) {
+			w.mu.Lock()
+			p := w.runParked
+			w.mu.Unlock()
+			if p {
+				break
+			}
+			time.Sleep(200 * time.Microsecond)
+		}
+	case "releaserun":
+		if r.holdRunCh != nil {
+			close(r.holdRunCh)
+			r.holdRunCh = nil
+		}
+	case "failfirst": // failfirst:<T|F> — the next source that opens fails on its first Read
+		w.mu.Lock()
+		w.failFirst = arg
+		w.mu.Unlock()
+	case "hold": // the destination withholds its acks from now on
+		w.mu.Lock()
+		w.hold, w.holdCh, w.holdErr = true, make(chan struct{}), false
+		w.mu.Unlock()
+	case "release", "releaseerr": // the withheld acks are sent (releaseerr: with an error ⇒ nack ⇒ DLQ threshold ⇒ fatal)
+		w.mu.Lock()
+		if w.hold {
+			w.hold = false
+			w.holdErr = name == "releaseerr"
+			close(w.holdCh)
+		}
+		w.mu.Unlock()
 	case "saw":
 		w.ev("c:saw")
 		res := withTimeout(opTimeout, func() string { return sawClass(r.eng.StopAndWait(ctx, plID)) })
@@ -251,8 +317,20 @@ func (r *runner) exec(op string) {
 		if ch := r.waits[arg]; ch != nil {
 			select {
 			case <-ch:
-			case <-time.After(opTimeout + time.Second):
-				w.ev("r:wait:" + arg + ":hang")
+			case <-time.After(time.Second):
+				// a WaitPipeline on a pipeline that is (still, or again) running blocks legitimately:
+				// end the run with an explicit, recorded force stop before concluding anything
+				w.mu.Lock()
+				live := w.srcOpen > 0
+				w.mu.Unlock()
+				if live {
+					r.exec("stop:f")
+				}
+				select {
+				case <-ch:
+				case <-time.After(opTimeout + time.Second):
+					w.ev("r:wait:" + arg + ":hang")
+				}
 			}
 			delete(r.waits, arg)
 		}
@@ -333,6 +411,8 @@ func runScript(cfg caseCfg, ops []string) string {
 	for _, op := range ops {
 		r.exec(op)
 	}
+	r.exec("release")
+	r.exec("releaserun")
 	r.w.openAll()
 	// outstanding waits must return once everything has stopped; first let the system settle
 	// wait for a stable end state: under load a goroutine of the service may simply not have been
@@ -344,8 +424,13 @@ func runScript(cfg caseCfg, ops []string) string {
 	for {
 		r.w.mu.Lock()
 		open = r.w.srcOpen
+		writing := r.w.writesInFlight > 0
 		r.w.mu.Unlock()
 		st := r.status()
+		if writing && time.Now().Before(deadline) {
+			time.Sleep(time.Millisecond)
+			continue
+		}
 		consistent := (st == "run" && open == 1 && !r.stopAsked) || (st != "run" && st != "rec" && open == 0)
 		if consistent || time.Now().After(deadline) {
 			break
